@@ -52,6 +52,14 @@ def unwritten_asm():
     loop = [A.ref('BR', 'go'), A.lab('sp'), A.data(150000), A.lab('go'), A.lab('top'), A.imm('LDAC', 0), A.ref('LDBM', 'sp'), A.imm('STAI', 2), A.imm('LDAC', 2), A.opr('SVC'),
             A.ref('LDBM', 'sp'), A.imm('LDAI', 1), A.imm('STAI', 2), A.imm('LDAC', 512), A.imm('STAI', 3), A.imm('LDAC', 1), A.opr('SVC'), A.ref('BR', 'top')]
     out.append(('unwasm:echoforever', loop))
+    # a read from a file stream at end of file (no simin file): 255 whatever the host stack holds
+    out.append(('unwasm:fileeof', head + [A.imm('LDAC', 256), A.ref('LDBM', 'sp'), A.imm('STAI', 2), A.imm('LDAC', 2), A.opr('SVC'), A.ref('LDAM', 'sp'), A.imm('LDAI', 1)] + exit_with_a))
+    out.append(('unwasm:fileeof2', head + [A.imm('LDAC', 256), A.ref('LDBM', 'sp'), A.imm('STAI', 2), A.imm('LDAC', 2), A.opr('SVC'), A.imm('LDAC', 2), A.opr('SVC'),
+                                           A.ref('LDAM', 'sp'), A.imm('LDAI', 1)] + exit_with_a))
+    # the words right after an image that carries PROC/FUNC debug symbols (the loader must not leave the tables there)
+    after = [A.ref('BR', 'go'), A.lab('sp'), A.data(150000), A.lab('go', 'PROC'), A.ref('LDAC', 'endw'), A.imm('LDAI', 1), A.ref('LDBC', 'endw'), A.imm('LDBI', 2), A.opr('ADD'),
+             A.ref('LDBC', 'endw'), A.imm('LDBI', 3), A.opr('ADD'), A.ref('LDBC', 'endw'), A.imm('LDBI', 4), A.opr('ADD')] + exit_with_a + [A.lab('helper', 'FUNC'), A.opr('BRB'), A.lab('endw'), A.data(0)]
+    out.append(('unwasm:afterimage', after))
     return [(i, p, asmlib.src_of(p)) for i, p in out]
 
 
